@@ -28,6 +28,11 @@ use emit::{
 };
 use vcommon::*;
 
+/// `lvl` occurring more than once in `and_props` chains that are not type-erased (the first value
+/// decides, readable or not), through the generic path, erased views, a real runtime and macro call sites.
+#[path = "../shared/c17_chains.rs"]
+mod chains;
+
 const SEGS: [&str; 15] = ["a", "aa", "b", "ab", "é", "a_1", "app", "app2", "app_util", "v1", "v10", "db", "http", "noisy", "other"];
 const LEVELS: [Level; 4] = [Level::Debug, Level::Info, Level::Warn, Level::Error];
 const WORDS: [(&str, usize); 6] = [("DEBUG", 0), ("DBG", 0), ("INFORMATION", 1), ("WARNING", 2), ("WRN", 2), ("ERROR", 3)];
@@ -1236,7 +1241,8 @@ fn main() {
         &args,
         "one evaluation = one (filter or path map, event) pair answered through every view and registration order; \
          non-trivial = distinct (registrations, default, module, level value) where a registered path is in effect and the level is one the statement settles, \
-         plus distinct (minimum, unleveled default, level value) for the plain filter",
+         plus distinct (minimum, unleveled default, level value) for the plain filter, \
+         plus distinct (and_props chain with its `lvl` occurrences, shadowing class, filter) for the chains in which `lvl` may occur more than once",
     );
     let seed = args.seed;
 
@@ -1251,6 +1257,12 @@ fn main() {
             Some("long") => long_renderings(&mut r),
             Some("integer") => int_case(&mut r, seed, index),
             Some("unreadable") => unreadable_table(&mut r),
+            Some("chains") => match case.get("origin").and_then(|v| v.as_str()) {
+                Some("seeded") => chains::chain_case(&mut r, seed, index),
+                Some("site") => chains::site_case(&mut r, seed, index),
+                Some("site-table") => chains::site_table(&mut r),
+                _ => chains::chain_table(&mut r),
+            },
             _ => text_forms(&mut r),
         }
         std::process::exit(r.finish());
@@ -1266,5 +1278,12 @@ fn main() {
     par_cases(&mut r, &args, n_filter, |i, r| filter_case(r, seed, i));
     let n_int = args.n(2_000, 100_000);
     par_cases(&mut r, &args, n_int, |i, r| int_case(r, seed, i));
+    // `lvl` more than once in generic and_props chains
+    chains::chain_table(&mut r);
+    chains::site_table(&mut r);
+    let n_chain = args.n(12_000, 1_000_000);
+    par_cases(&mut r, &args, n_chain, |i, r| chains::chain_case(r, seed, i));
+    let n_site = args.n(3_000, 200_000);
+    par_cases(&mut r, &args, n_site, |i, r| chains::site_case(r, seed, i));
     std::process::exit(r.finish());
 }
